@@ -66,5 +66,5 @@ Example c19_ex_lost_output_rejected :
       EOutput C01.a 1%nat; EState C01.a Submitted false false false;
       ERestart;
       ERestore {| v_id := C01.a; v_status := Submitted; v_held := false; v_queued := false; v_runahead := true;
-                  v_flows := [1%nat]; v_sat := []; v_outs := []; v_sn := 1%nat |} ] = Some (13%nat, 222%nat).
+                  v_flows := [1%nat]; v_sat := []; v_outs := []; v_sn := 1%nat; v_fsat := [] |} ] = Some (13%nat, 222%nat).
 Proof. vm_compute. reflexivity. Qed.
